@@ -87,6 +87,11 @@ CHECKS = {
         text="The include environment (file system + template cache) is finite and owned by the harness: three files are each independently on disk, in the cache only, in both with different content, or missing (64 configurations, 'missing' being the injected fault), combined with 6 acyclic include graphs (nested, repeated, inside a loop), 8 ways of writing the include argument (literal, variable, variable assigned earlier in the render, filtered expression, map property, three non-strings), 4 included bodies (reading top-level and freshly assigned variables, assigning, failing filter, syntax error) and main templates parsed at several directory depths and without a path. Expected content is disk, else cache, else error; when everything resolves the output must equal the engine's own rendering of the textually inlined template, otherwise a SourceError with no output (os.IsNotExist cause for a missing file).",
         note="Nested includes only between files of the main template's own directory (where both readings of 'relative to' coincide). Files live under /verif/.work/c14.<pid>, removed by the worker.",
         tech="exhaustive environment-configuration enumeration (file present/cached/both/missing) x include graphs x argument forms with a reference inliner"),
+    "C02": dict(
+        cat="model_checking", ref="4/C02",
+        text="The only nondeterminism reachable from the interpreter is Go map iteration order, so the harness takes ownership of it: a go build -overlay of runtime/map.go (generated by tools/rtseam.sh, anchors verified) turns every map-iteration start into an environment choice point. For 19 map-consuming templates x maps of 2,3,4,8,12 entries x insertion orders (all n! for n<=4, shifts and reversal beyond), a deviation-bounded depth-first search runs the real render under every choice vector with <=1 (quick) / <=3 (thorough) non-default iteration starts; every execution must produce the canonical output. Independently every template of a ~400-template pool goes through 6 entry points, 3 re-renders of one parsed template, a fresh engine and rebuilt bindings, two fresh processes must produce identical digests of the whole pool, and (thorough) the command-line tool is run as a sub-process.",
+        note="Environment automaton = rotations of bucket slot order x hash-seed-pinned bucket choice; maps above 13 entries not enumerated. Without the seam (other Go version) the check exits 0 with exhaustive:false.",
+        tech="deviation-bounded DFS over environment answers (Go map-iteration start) on the real code via a runtime overlay, plus entry-point/process differential"),
 }
 
 NOT_YET = "check not built yet (work in progress; see DESIGN.md section 7 build order)"
